@@ -15,6 +15,10 @@
 #include <opm/io/eclipse/EclUtil.hpp>
 #include <opm/io/eclipse/ExtESmry.hpp>
 #include <opm/io/eclipse/OutputStream.hpp>
+#include <opm/io/eclipse/ExtSmryOutput.hpp>
+#include <opm/input/eclipse/Parser/Parser.hpp>
+#include <opm/input/eclipse/Deck/Deck.hpp>
+#include <opm/input/eclipse/EclipseState/EclipseState.hpp>
 #include <opm/common/utility/TimeService.hpp>
 
 #include <algorithm>
@@ -176,6 +180,66 @@ int main(int argc, char** argv) {
                 writeData(rs, true, true, ms);
                 sink.emit(op, vh::hex(vh::slurp(tmp + "/CASE.FUNSMRY")));
                 sink.count("fmtfile");
+                cleanDir(tmp);
+            }
+        }
+
+        // ESMRY container: where the headers of RSTEP and of every V<k> really are in the files
+        // written by ExtSmryOutput::write and by ESmry::make_esmry_file, against the position
+        // arithmetic of ExtESmry::load_esmry (Gen/ExtESmrySeek.lean)
+        {
+            auto walk = [&](const std::string& bytes, std::map<std::string, size_t>& hdr, std::map<std::string, long>& cnt) {
+                size_t p = 0;
+                while (p + 24 <= bytes.size()) {
+                    std::string name = bytes.substr(p + 4, 8);
+                    uint32_t n = ((unsigned char) bytes[p + 12] << 24) | ((unsigned char) bytes[p + 13] << 16) | ((unsigned char) bytes[p + 14] << 8) | (unsigned char) bytes[p + 15];
+                    std::string ty = bytes.substr(p + 16, 4);
+                    eclArrType t = ty == "INTE" ? INTE : ty == "REAL" ? REAL : ty == "DOUB" ? DOUB : ty == "LOGI" ? LOGI : ty == "CHAR" ? CHAR : ty == "MESS" ? MESS : C0NN;
+                    int esz = t == C0NN ? std::atoi(ty.substr(1).c_str()) : (t == DOUB || t == CHAR ? 8 : 4);
+                    while (!name.empty() && name.back() == ' ') name.pop_back();
+                    hdr[name] = p; cnt[name] = n;
+                    p += 24 + sizeOnDiskBinary((int64_t) n, t, esz);
+                }
+            };
+            auto emitFile = [&](const std::string& path, const std::string& kind) {
+                std::string bytes = vh::slurp(path);
+                std::map<std::string, size_t> hdr; std::map<std::string, long> cnt;
+                walk(bytes, hdr, cnt);
+                if (!hdr.count("RSTEP")) { sink.emit("extesmry.vpos 0 0 0", "no-RSTEP-in-" + kind); return; }
+                for (int k = 0; hdr.count("V" + std::to_string(k)); ++k) {
+                    if (k > 12 && k % 97 && hdr.count("V" + std::to_string(k + 1))) continue;
+                    sink.emit("extesmry.vpos " + std::to_string(hdr["RSTEP"]) + " " + std::to_string(cnt["RSTEP"]) + " " + std::to_string(k), std::to_string(hdr["V" + std::to_string(k)]));
+                    sink.count("extesmry.vpos." + kind);
+                }
+            };
+            int nruns = tier == "thorough" ? 12 : 4;
+            for (int r = 0; r < nruns; ++r) {
+                int nvec = rng.pick(std::vector<int>{ 2, 5, 40, 300 });
+                int nsteps = rng.pick(std::vector<int>{ 1, 3, 999, 1000, 1001, 2500 });
+                if (tier != "thorough" && r > 1) nsteps = rng.range(1, 30);
+                // (a) ExtSmryOutput::write
+                cleanDir(tmp);
+                {
+                    std::string deckPath = tmp + "/MINI.DATA";
+                    vh::spit(deckPath, "RUNSPEC\nDIMENS\n 2 2 1 /\nOIL\nWATER\nSTART\n 1 JAN 2020 /\nGRID\nDX\n 4*10 /\nDY\n 4*10 /\nDZ\n 4*10 /\nTOPS\n 4*1000 /\nPORO\n 4*0.3 /\nPERMX\n 4*100 /\nPROPS\nSCHEDULE\n");
+                    Opm::Parser parser; auto deck = parser.parseFile(deckPath);
+                    Opm::EclipseState es(deck);
+                    std::vector<std::string> keys = { "TIME" }, units = { "DAYS" };
+                    for (int k = 1; k < nvec; ++k) { keys.push_back("WBHP:" + keyOf(k)); units.push_back("BARSA"); }
+                    ExtSmryOutput out(keys, units, es, 1577836800);
+                    std::vector<float> row(nvec);
+                    for (int st = 0; st < nsteps; ++st) { for (auto& v : row) v = (float) rng.unit(); row[0] = (float) st; out.write(row, st / 3, st + 1 == nsteps); }
+                }
+                if (fs::exists(tmp + "/MINI.ESMRY")) emitFile(tmp + "/MINI.ESMRY", "extsmryoutput");
+                else { sink.emit("extesmry.vpos 0 0 0", "no-file-written"); }
+                // (b) ESmry::make_esmry_file from SMSPEC/UNSMRY
+                cleanDir(tmp);
+                {
+                    std::vector<Mini> ms; for (int st = 0; st < std::min(nsteps, 40); ++st) { Mini m; m.seq = st / 3; m.id = st; m.params.resize(nvec); for (auto& v : m.params) v = (float) rng.unit(); m.params[0] = (float) st; ms.push_back(m); }
+                    writeRun(rs, false, true, nvec, ms, SMSpec::RestartSpecification{});
+                    { ESmry es(tmp + "/CASE.SMSPEC"); es.make_esmry_file(); }
+                    emitFile(tmp + "/CASE.ESMRY", "make_esmry_file");
+                }
                 cleanDir(tmp);
             }
         }
